@@ -57,7 +57,7 @@ impl<W: WorldSpec> Engine<W> {
                 let am = &mut self.ms[wid].archs[ai];
                 if let Some((old, rem)) = am.pub_ver {
                     if !wrapping && am.removals > rem && pv == old {
-                        vio("C09", "public-version-unchanged-over-removals", format!("{}: Archetype::version() is still {} after {} more removals", d.info().name, pv, am.removals - rem));
+                        vio("C09", "public-version-unchanged-over-removals", format!("{}: Archetype::version() is still {:?} after {} more removals", d.info().name, pv, am.removals - rem));
                         return;
                     }
                 }
@@ -255,12 +255,6 @@ impl<W: WorldSpec> Engine<W> {
             if am.ver_obs != 0 && !wrapping {
                 if v < am.ver_obs || (am.removals > am.rem_at_obs && v == am.ver_obs) {
                     vio("C09", "rep-version", format!("{}: archetype version went {} -> {} over {} removals", name, am.ver_obs, v, am.removals - am.rem_at_obs));
-                    return;
-                }
-            }
-            if let Some((pv, _)) = am.pub_ver {
-                if pv != v {
-                    vio("C09", "public-version-differs", format!("{}: Archetype::version() reads {} but the stored archetype version is {}", name, pv, v));
                     return;
                 }
             }
